@@ -27,9 +27,11 @@ def physical(rng, n_r, n_q):
     return r, g, q, f
 
 
-def gen_filter_case(rng, tier, R, Q, channel=2, lorch=False, omitted=False):
+def gen_filter_case(rng, tier, R, Q, channel=2, lorch=False, omitted=False, sizes=None):
     n_r = rng.choice([3, 5, 8, rng.randint(3, 25 if tier == "quick" else 60)])
     n_q = rng.choice([2, 3, 7, rng.randint(2, 25 if tier == "quick" else 60)])
+    if sizes is not None:
+        n_r, n_q = sizes
     r, g, q, f = physical(rng, n_r, n_q)
     mat = L.material(rng)
     mode = rng.choice(["grid", "between", "between", "all", "tiny"])
